@@ -4,7 +4,8 @@ CONSTANTS
   Heights <- H4
   MaxBest = 4
   MaxStarts = 3
+  InPlace = FALSE
 VIEW view
-INVARIANTS TypeOK VersionMonotone ForkFlagsAgree VersionStable ReceiptFormatStable AssignedMonotone DbIsCfg
-PROPERTIES RestartSameAccepted RefusedStartNoChange
+INVARIANTS TypeOK VersionMonotone ForkFlagsAgree VersionStable ReceiptFormatStable AssignedMonotone DbIsCfg HeaderMatchesId
+PROPERTIES ParentUnchangedByChild RestartSameAccepted RefusedStartNoChange
 CHECK_DEADLOCK FALSE
